@@ -10,7 +10,7 @@
 //! The exponential distribution `Exp(λ)`.
 
 use crate::utils::ziggurat;
-use crate::{Distribution, ziggurat_tables};
+use crate::{Distribution, Open01, ziggurat_tables};
 use core::fmt;
 use num_traits::Float;
 use rand::{Rng, RngExt};
@@ -71,7 +71,8 @@ impl Distribution<f64> for Exp1 {
         }
         #[inline]
         fn zero_case<R: Rng + ?Sized>(rng: &mut R, _u: f64) -> f64 {
-            ziggurat_tables::ZIG_EXP_R - rng.random::<f64>().ln()
+            let u: f64 = rng.sample(Open01);
+            ziggurat_tables::ZIG_EXP_R - u.ln()
         }
 
         ziggurat(
